@@ -412,6 +412,8 @@ class Ctx:
         self._inst_done_stack.append(frozenset(self._inst_done))
         self._lits_stack = getattr(self, "_lits_stack", [])
         self._lits_stack.append(getattr(self, "_lits_done", 0))
+        self._wit_stack = getattr(self, "_wit_stack", [])
+        self._wit_stack.append(set(getattr(self, "_ne_witness", {})))
         self.solver.push()
 
     def pop_scope(self):
@@ -422,6 +424,9 @@ class Ctx:
             del self.index_terms[r][keep:]
         self.solver.pop()
         self._lits_done = self._lits_stack.pop()
+        keep_w = self._wit_stack.pop()
+        for kw in [kw for kw in getattr(self, "_ne_witness", {}) if kw not in keep_w]:
+            del self._ne_witness[kw]
         # instances recorded for dropped terms may have been dropped with the facts: forget the memo
         # entries made inside the scope so that they are redone when needed
         self._inst_done = set(self._inst_done_stack.pop()) if getattr(self, "_inst_done_stack", None) else self._inst_done
